@@ -58,6 +58,15 @@ def parse_cases(out):
     return cases
 
 
+def parse_hist(out):
+    pairs = []
+    for ln in out.splitlines():
+        m = re.match(r'^<<"HIST", "(.*)">>\s*$', ln)
+        if m:
+            pairs.append(json.loads(m.group(1).replace('\\"', '"').replace('\\\\', '\\')))
+    return pairs
+
+
 def qkey(q):
     return '%s %s %s %s' % (q['kind'], q['op'], q['text'], q['attr'])
 
@@ -78,6 +87,12 @@ def run(tier):
         t0 = time.time()
     try:
         lap('build')
+        # 0. (in the background) ReplanHist.tla: the neighbour pairs of requests, with the proof that they expose every
+        # unsound process-level memo design
+        import concurrent.futures
+        pool = concurrent.futures.ThreadPoolExecutor(max_workers=1)
+        hist_future = pool.submit(tlc_run, sd, 'MC_ReplanHist.tla', 'MC_ReplanHist_gen.cfg',
+                                  cfg_text('HSpec', [], [1], 3, True, 'INVARIANTS HExport'), 600, 1)
         # 1. field probe: which of the modelled fields does the real Process write
         pp = os.path.join(sd, 'probe.json')
         r = vlib.run_cmd([binp, 'probe', '-out', pp], timeout=300, env=env)
@@ -131,6 +146,21 @@ def run(tier):
         expected = {(qkey(c['q']), c['k']): c for c in cases}
         candidates = sorted({qkey(c['q']) for c in cases if c['diverges']})
 
+        hres = hist_future.result()
+        try:
+            pairs_h = parse_hist(hres['out'])
+            if hres['violated'] or not hres.get('finished') or len(pairs_h) < 100:
+                raise vlib.Infra('ReplanHist.tla: export of the neighbour pairs failed (or Adequate / SoundSilent do not hold):\n' + hres['out'][-2000:])
+            states += hres.get('distinct', 0)
+            transitions += hres.get('generated', 0)
+        finally:
+            vlib.tlc_cleanup(hres)
+        hp = os.path.join(sd, 'hist.json')
+        ip = os.path.join(sd, 'iso.json')
+        json.dump(pairs_h, open(hp, 'w'))
+        r = vlib.run_cmd([binp, 'isolate-all', '-seed', str(vlib.seed()), '-hist', hp, '-out', ip], timeout=600, env=env)
+        if r.returncode != 0 or not os.path.exists(ip):
+            raise vlib.Infra('c14 isolate-all failed: ' + (r.stdout + r.stderr)[-2000:])
         lap('case_export')
         # 4. the driver, sharded over child processes (one world per process)
         shards = 4 if tier == 'quick' else 6
@@ -151,15 +181,20 @@ def run(tier):
                         os.remove(f)
                 if i < shards:
                     cmd = [binp, 'run', '-seed', str(vlib.seed()), '-tier', tier, '-out', op, '-cases', cp, '-trace', tp,
-                           '-shard', str(i), '-shards', str(shards)]
+                           '-shard', str(i), '-shards', str(shards), '-hist', hp, '-iso', ip]
                 else:
                     cmd = [binp, 'run', '-seed', str(vlib.seed()), '-tier', tier, '-out', op, '-cluster', 'c1',
                            '-shard', str(i - shards), '-shards', str(cshards)]
-                procs.append((i, op, tp, subprocess.Popen(cmd, env=e, stdout=subprocess.DEVNULL, stderr=subprocess.PIPE, text=True)))
+                # stderr to a file: the planners print statements there, and a pipe that is only drained when the earlier shards
+                # have ended would serialise the shards
+                ef = open(os.path.join(sd, 'stderr_%d.txt' % i), 'w')
+                procs.append((i, op, tp, subprocess.Popen(cmd, env=e, stdout=subprocess.DEVNULL, stderr=ef, text=True)))
+                ef.close()
             results, failure = [], None
             for i, op, tp, p in procs:
                 try:
-                    _, err = p.communicate(timeout=780 if tier == 'thorough' else 240)
+                    p.wait(timeout=780 if tier == 'thorough' else 240)
+                    err = open(os.path.join(sd, 'stderr_%d.txt' % i), errors='replace').read()[-20000:]
                 except subprocess.TimeoutExpired:
                     for _, _, _, q in procs:
                         q.kill()
@@ -248,7 +283,8 @@ def run(tier):
         if odd:
             infra.append('queries of the corpus could not be planned: ' + json.dumps(odd)[:1500])
         need = {'plans_reexecuted': 300, 'determinism_translations': 300, 'interleaved_calls': 100, 'portions_compared': 20,
-                'tail_ticks': 30, 'case_calls': 150}
+                'tail_ticks': 30, 'case_calls': 150,
+                'history_pairs': 300, 'history_statements': 1000}
         for k, n in need.items():
             if stats.get(k, 0) < n:
                 infra.append('vacuous run: %s = %s (< %d); stats %s' % (k, stats.get(k, 0), n, json.dumps(stats)))
@@ -291,6 +327,11 @@ def run(tier):
                 'signature': sig, 'modes': sorted({x['mode'] for x in fs}), 'queries_with_this_signature': queries[:60], 'token_differences': shapes,
                 'example': f, 'replay': 'c14 adhoc -lang %s -q %r' % ('traceql' if f['lang'] == 'traceql' else 'logql', f['query'])})
             what = 'error' if f['verdict']['class'] == 'ERROR' else 'different result rows'
+            if f['mode'] == 'history':
+                viols.append({'property': 'C14', 'signature': sig, 'replay': path,
+                              'msg': '%s %s: the translation depends on the earlier translations of the process (%s; tokens %s): %s; %d queries, e.g. %s'
+                                     % (f['lang'], f['entry'], what, f['verdict'].get('tokdiff'), f.get('case'), len(queries), queries[0])})
+                continue
             viols.append({'property': 'C14', 'signature': sig, 'replay': path,
                           'msg': '%s %s: execution %d of one plan object (%s) differs in meaning from a fresh plan with the same context (%s; tokens %s); '
                                  '%d queries in modes %s, e.g. %s' % (f['lang'], f['entry'], f['k'], f['mode'], what, f['verdict'].get('tokdiff'), len(queries),
@@ -343,6 +384,8 @@ def run(tier):
                          'candidates_confirmed_on_real_code': sorted({qkey(o['q']) for o in couts if o['diverges']}),
                          'unexpected_divergences': [(qkey(o['q']), o['k'], o['concrete']) for o in unexpected][:10],
                          'mismatches': mismatches[:10]},
+               'histories': {'neighbour_pairs_enumerated_by_tlc': len(pairs_h), 'pairs_run': stats.get('history_pairs', 0),
+                             'translations_compared_with_isolated_process': stats.get('history_translations', 0)},
                'trace_validation': tv, 'tail': tail, 'stats': stats, 'comparison_classes': classes,
                'benign_differences_samples': [{'signature': b['signature'], 'mode': b['mode'], 'query': b['query'], 'k': b['k'], 'base': b.get('base')}
                                               for b in benign[:12]],
